@@ -71,6 +71,8 @@ def generic_ids(n, m, nlabels, ncams):
     parts["paired_iff_same_uuid_and_camera"] = L.And(*conds)
     parts["every_estimate_reported_once"] = sorted(used_e) == list(range(n)) if (n and m) or n == 0 or True else True
     parts["pairs_share_camera"] = all(ests[i].cam == gts[j].cam for i, j in pairs if j is not None)
+    res2 = OR.get_object_results(EvaluationTask.CLASSIFICATION2D, e_in, g_in)
+    parts["repeated_call_same_result"] = _pairs(res2, ests, gts)[0] == pairs
     return Out(parts=parts, obs={"pairs": pairs})
 
 
@@ -107,6 +109,8 @@ def traffic_light_ids(n, m, nlabels, ncams, uuid_first):
     fg = [j for j in range(m) if j not in used_g]
     parts["uuid_stage_complete"] = L.Not(L.Or(*[L.And(ests[i].uid == gts[j].uid, ests[i].cam == gts[j].cam)
                                                 for i in fe for j in fg]))
+    res2 = OR.get_object_results(EvaluationTask.CLASSIFICATION2D, e_in, g_in, uuid_matching_first=uuid_first)
+    parts["repeated_call_same_result"] = _pairs(res2, ests, gts)[0] == pairs
     return Out(parts=parts, obs={"pairs": pairs})
 
 
